@@ -25,26 +25,25 @@ pub fn run(case: &Value) -> Value {
         f.write_all(&text).unwrap();
     }
     let filters = ff.create(&path);
-    let mut cov = cov_of(&case["cov"]);
     let mut fl = Vec::new();
     for f in filters {
-        // same application as path_rewriting.rs:373-386
         match f {
-            FilterType::Both(n) => {
-                cov.branches.remove(&n);
-                cov.lines.remove(&n);
-                fl.push(json!(["both", n]));
-            }
-            FilterType::Line(n) => {
-                cov.lines.remove(&n);
-                fl.push(json!(["line", n]));
-            }
-            FilterType::Branch(n) => {
-                cov.branches.remove(&n);
-                fl.push(json!(["branch", n]));
-            }
+            FilterType::Both(n) => fl.push(json!(["both", n])),
+            FilterType::Line(n) => fl.push(json!(["line", n])),
+            FilterType::Branch(n) => fl.push(json!(["branch", n])),
         }
     }
+    // the record goes through the real report pipeline of main.rs: rewrite_paths (which applies the
+    // filters, path_rewriting.rs:373-386) and then merge_same_paths with the --filter option
+    let filter_option = case["filter"].as_bool();
+    let mut map: grcov::CovResultMap = Default::default();
+    let abs = std::fs::canonicalize(dir.path()).unwrap().join("src.txt");
+    map.insert(abs.to_str().unwrap().to_string(), cov_of(&case["cov"]));
+    let none: [&str; 0] = [];
+    let out = grcov::rewrite_paths(map, None, None, None, false, &none, &none, None, ff);
+    let out = grcov::merge_same_paths(out, filter_option);
+    let present = !out.is_empty();
+    let cov = out.into_iter().next().map(|t| t.2).unwrap_or_default();
     // what the six regexes say about each line (regex crate is outside the model)
     let mut flags = Vec::new();
     if let Ok(s) = String::from_utf8(text) {
@@ -54,5 +53,5 @@ pub fn run(case: &Value) -> Value {
             flags.push(v);
         }
     }
-    json!({"filters": fl, "flags": flags, "cov": cov_to(&cov)})
+    json!({"filters": fl, "flags": flags, "cov": cov_to(&cov), "present": present})
 }
